@@ -251,15 +251,17 @@ func readConfig(args []string) *CliConfig {
 			log.Fatal("Config read failed", zap.Error(err))
 		}
 	}
-	pools := v.Get("pools").([]any)
-	for i, pool := range pools {
-		poolMap := pool.(map[string]any)
-		if _, ok := poolMap["discard_overflow"]; !ok {
-			poolMap["discard_overflow"] = true
+	// a `pools` value that is not a list of mappings is left as it is: DecodeAndValidate reports it
+	if pools, ok := v.Get("pools").([]any); ok {
+		for _, pool := range pools {
+			if poolMap, ok := pool.(map[string]any); ok {
+				if _, ok := poolMap["discard_overflow"]; !ok {
+					poolMap["discard_overflow"] = true
+				}
+			}
 		}
-		pools[i] = poolMap
+		v.Set("pools", pools)
 	}
-	v.Set("pools", pools)
 
 	conf := DefaultConfig()
 	err = config.DecodeAndValidate(v.AllSettings(), conf)
